@@ -302,6 +302,10 @@ class ReadInput(Input):
             raise ParsingError(self, "", self._parser.log.clear_queue())
         self._tree = parse_result
         self._parameters = self._tree["parameters"]
+        if "file" not in self._parameters.nodes:
+            raise ParsingError(
+                self, "A read input must name the file to read: read file=<path>", []
+            )
 
     @staticmethod
     def is_read_input(input_lines):
